@@ -470,7 +470,7 @@ def strip_docs_and_attrs(text, log=None):
             continue
         out.append(ln)
     text = "\n".join(out)
-    pat = re.compile(r"[ \t]*#\[(derive|inline|allow|doc|serde|must_use|cfg_attr|deprecated|schemars)\b")
+    pat = re.compile(r"[ \t]*#\[(derive|inline|allow|doc|serde|must_use|cfg_attr|deprecated|schemars|prost|track_caller|rustfmt::skip)\b")
     while True:
         m = mask(text)
         mm = pat.search(m)
